@@ -1,9 +1,9 @@
 #!/bin/sh
-# tools/sweep.sh "<seeds>" [tier]  - run every registered check at several seeds; print verdicts
+# tools/sweep.sh "<seeds>" [tier]  - run every registered check (or those in $IDS) at several seeds; print verdicts
 cd "$(dirname "$0")/.."
 TIER=${2:-quick}
 for seed in $1; do
-  for id in C01 C02 C03 C04 C05 C06 C07 C08 C09 C10 C11 C12 C13 C14 C15 C16 C17 C18 C19; do
+  for id in ${IDS:-C01 C02 C03 C04 C05 C06 C07 C08 C09 C10 C11 C12 C13 C14 C15 C16 C17 C18 C19}; do
     out=$(VERIF_SEED=$seed VERIF_FOUND=found_sweep ./check $id --tier $TIER 2>&1); rc=$?
     echo "seed=$seed $id rc=$rc $(echo "$out" | grep -E "^C[0-9]+ (quick|thorough)" | tail -1)"
     [ $rc -ne 0 ] && echo "$out" | grep -E "^(FAIL|HARNESS|VIOLATION)" | cut -c1-400 | head -6
